@@ -29,7 +29,7 @@ TRUSTED_BASE = [
     'Coq 8.16.1 kernel (coqc); vm_compute used in witness/finite-sweep lemmas; native_compute not used',
     'axioms: none declared; Print Assumptions of every property theorem checked against tools/allowlist.txt',
     'extraction to OCaml with ExtrOcamlBasic only (its Extract Inductive for bool, option, unit, list, prod, sumbool, sumor; no Extract Constant); ocaml/driver.ml (byte<->nat conversion, I/O)',
-    'tools/translate.py (regenerates Gen/*.v from /repo/src on every run)',
+    'tools/translate.py (regenerates Gen/*.v from /repo/src on every run); tools/translate_core.py with its primitive table (regenerates coq/core/CoreGen.v: every reader method, proved equal to the model in coq/core/CoreGenP.v)',
     'harness/ (Rust): scripted Read+Seek source, recording policies, catch_unwind, canonical printers',
     'modelled, not verified: buffer_redux::BufReader window semantics, memchr, slice::split/chunks, Zip/Skip double-ended semantics, str::from_utf8, char::escape_default, serde_derive, std mpsc sync_channel, scoped_threadpool, crossbeam scoped threads (DESIGN.md section 8)',
 ]
@@ -127,7 +127,7 @@ def forbidden_tokens():
     """scan the development for forbidden declarations; returns list of 'file:line: text'"""
     bad = []
     base = os.path.join(COQ, 'theories')
-    for d, _, fs in os.walk(base):
+    for d, _, fs in list(os.walk(base)) + list(os.walk(os.path.join(COQ, 'core'))):
         for f in fs:
             if not f.endswith('.v'):
                 continue
@@ -212,6 +212,50 @@ def print_assumptions(prop, names):
     return res, out
 
 
+CORE = os.path.join(COQ, 'core')
+
+
+def core_tie(timeout=1200):
+    """The SECOND tie between model and code: tools/translate_core.py regenerates Gallina definitions of the reader
+    logic (lib.rs fill_buf/trim_cr, the methods of both `impl Reader`) from the repository, and coq/core/CoreGenP.v
+    proves each of them equal to the hand-written model function.  Returns {'status': 'equal' | 'differs' |
+    'untranslatable' | 'unavailable', 'detail': ..}.  (The first tie is the differential correspondence run.)"""
+    tc = os.path.join(ROOT, 'tools', 'translate_core.py')
+    if not os.path.exists(tc) or not os.path.isdir(CORE):
+        return {'status': 'unavailable', 'detail': 'no core translator in this tree'}
+    with Lock('coq'):
+        tmp = os.path.join(WORK, 'coregen')
+        os.makedirs(tmp, exist_ok=True)
+        rc, out = run([sys.executable, tc, REPO, tmp], timeout=300)
+        errs = [l for l in out.split('\n') if 'TRANSLATE-CORE-ERROR' in l]
+        gen = os.path.join(tmp, 'CoreGen.v')
+        if rc != 0 or errs or not os.path.exists(gen):
+            return {'status': 'untranslatable', 'detail': (errs[0] if errs else out[-300:])[:400]}
+        cur = os.path.join(CORE, 'CoreGen.v')
+        new = open(gen).read()
+        if not os.path.exists(cur) or open(cur).read() != new:
+            open(cur, 'w').write(new)
+        mk = os.path.join(CORE, 'Makefile')
+        cp = os.path.join(CORE, '_CoqProject')
+        if not os.path.exists(mk) or os.path.getmtime(mk) < os.path.getmtime(cp):
+            run(['coq_makefile', '-f', '_CoqProject', '-o', 'Makefile'], cwd=CORE)
+        rc, out = run(['make'], cwd=CORE, timeout=timeout)
+        if rc != 0:
+            m = re.search(r'File "\./CoreGenP\.v", line (\d+)', out)
+            lemma = ''
+            if m:
+                ln = int(m.group(1))
+                for i, l in enumerate(open(os.path.join(CORE, 'CoreGenP.v')), 1):
+                    mm = re.match(r'^\s*(?:Lemma|Theorem|Example)\s+(\w+)', l)
+                    if mm and i <= ln:
+                        lemma = mm.group(1)
+            return {'status': 'differs', 'detail': ('equality %s no longer checks: ' % lemma if lemma else '') + out[-300:].replace('\n', ' ')[:300]}
+        if 'Axioms:' in out or 'Admitted' in out:
+            return {'status': 'differs', 'detail': 'an equality lemma of coq/core depends on an axiom: ' + out[-200:]}
+        nlem = len(re.findall(r'^\s*(?:Lemma|Theorem)\s+gen_\w+', open(os.path.join(CORE, 'CoreGenP.v')).read(), re.M))
+        return {'status': 'equal', 'detail': '%d generated definitions proved equal to the model (coq/core/CoreGenP.v)' % nlem}
+
+
 def coqchk(prop, timeout=3000):
     """independent re-check of the compiled property files and everything they depend on
     (coqchk); returns (ok, axioms-line, log-tail)"""
@@ -254,7 +298,7 @@ def run_rh(path, exe, ncases):
     lines = [l for l in open(path).read().split('\n') if l and not l.startswith('#')]
     start = 0
     guard = 0
-    while start < len(lines) and guard < 50:
+    while start < len(lines) and guard < 12:     # every hang costs the 10 s watchdog; after a dozen the rest of the shard is skipped
         guard += 1
         sub = path + '.part%d' % start
         open(sub, 'w').write('\n'.join(lines[start:]) + '\n')
@@ -279,7 +323,7 @@ def run_rh(path, exe, ncases):
                 results.append((blocks[h] if h < len(blocks) else []) + ['? crash rc=%d' % p.returncode])
                 start = start + h + 1
     while len(results) < ncases:
-        results.append(['? missing'])
+        results.append(None if guard >= 12 else ['? missing'])      # None: not run (dropped by run_cases)
     return results
 
 
@@ -309,6 +353,8 @@ def run_cases(cases, tag, model=True, impl=True, rh_exe=None):
                     mblocks.append(['? model-missing'])
             iblocks = fut.result() if fut is not None else [[] for _ in sh]
             for c, mb, ib in zip(sh, mblocks, iblocks):
+                if ib is None:
+                    continue
                 out.append({'case': c,
                             'spec': [l[5:] for l in mb if l.startswith('spec ')],
                             'model': [l for l in mb if not l.startswith('spec ')],
